@@ -1,4 +1,5 @@
 import TxV.Core.Example2
+import TxV.Core.Builder
 /-!
 # C01 — an exclusive method serves at most one active call per cycle
 
@@ -84,6 +85,19 @@ theorem c01_exclSem_of_tree (cv : CVal) (mods : List (Int × Blk)) (hnd : (mods.
     (hp : CallsPlaced D v cv mods) : ExclSem D v :=
   exclSem_of_tree cv mods hnd hp
 
+-- OBLIGATION c01_builder_positional : the recorded control paths are the positional ones: for every well-formed module tree (every If-chain has its first alternative), running the transcription of the stateful CtrlPathBuilder (tmodule.py:145-185: enter/exit with PUSH/ADD/ENTRY, `previous`) over the enter/exit/site event trace of the tree raises no builder error, returns to the empty path and records for every site exactly the path sitesBlk assigns (k-th structure of a block par = k, alternative a alt = a + offset) — so exclusive_sound / exclusive_complete speak about the paths the real builder produces (transcription cross-checked against the real CtrlPathBuilder on 100 random trees)
+theorem c01_builder_positional (cv : CVal) (av : Bool) (b : Blk) (hw : wfBlk b = true) :
+    ∃ q, runB (evBlk b) ⟨[], none⟩ =
+      some (⟨[], q⟩, (sitesBlk cv av [] true 0 b).map fun e => (e.id, e.path)) :=
+  builder_positional cv av b hw
+
+/-- non-vacuity: the example tree is well formed and the builder run over its trace yields the paths
+of the example design's call sites -/
+example : wfBlk Ex.tree = true ∧
+    (runB (evBlk Ex.tree) ⟨[], none⟩).map (·.2) =
+      some [(100, []), (0, [⟨0,0⟩]), (1, [⟨0,1⟩]), (2, [⟨0,1⟩]), (3, [⟨0,2⟩, ⟨0,0⟩]), (4, [⟨0,2⟩, ⟨1,0⟩])] := by
+  decide
+
 -- OBLIGATION c01_accepted_of_check : the executable check evaluated by the driver implies the declarative hypotheses
 theorem c01_accepted_of_check (h : acceptedB D S = true) : Accepted D S := acceptedB_sound h
 
@@ -118,4 +132,5 @@ end TxV.Core
 #print axioms TxV.Core.c01_exclusive_complete
 #print axioms TxV.Core.c01_different_modules_not_exclusive
 #print axioms TxV.Core.c01_exclSem_of_tree
+#print axioms TxV.Core.c01_builder_positional
 #print axioms TxV.Core.c01_accepted_of_check
